@@ -28,6 +28,11 @@ type c05Case struct {
 	ReqMem   int64 // total requested bytes
 	NoCache  bool  // from zero, never saw a node
 	EndToEnd bool
+	// PrevC / PrevM: size of the nodes seen in an earlier scan, before nodes of size C / M were seen
+	// (0 = no earlier generation). The last observed size must be the one used.
+	PrevC, PrevM int64
+	// end-to-end single scans with out-of-service nodes present
+	U, Tn, Cn, Fn, Need int
 }
 
 // c05Eval runs the real arithmetic on one case. ok=false means the case is not in the property's
@@ -130,33 +135,82 @@ func c05FromZero(p c05Case, rotate int) *h.Scenario {
 	g.ASG.CPUMilli, g.ASG.MemBytes = p.C, p.M
 	g.Opts.ScaleUpThresholdPercent = p.T
 	g.Opts.TaintLowerCapacityThresholdPercent, g.Opts.TaintUpperCapacityThresholdPercent = 1, 2
+	addGen := func(hh *h.Hist, a *sim.ASG, c, m int64) {
+		for i := 0; i < 2; i++ {
+			n := hh.W.AddNode(a, sim.NodeOpt{Age: time.Duration(10+i) * Q, CPUMilli: c, MemBytes: m})
+			// 2.5 % utilisation: between the upper taint threshold (2) and the scale-up threshold (>= 3), so these scans do nothing
+			hh.W.AddPod(sim.PodOpt{Node: n.Name, CPUMilli: c * 25 / 1000, MemBytes: m * 25 / 1000, Selector: sel(g)})
+		}
+	}
+	wipe := func(hh *h.Hist) {
+		a := hh.W.FindASG(g.ASG.Name)
+		for _, in := range a.Instances {
+			hh.W.EC2[in.ID].State = "terminated"
+		}
+		a.Instances, a.Desired = nil, 0
+		hh.W.Nodes, hh.W.Pods = nil, nil
+	}
+	gens := 1
+	if p.PrevC > 0 {
+		gens = 2
+	}
 	return &h.Scenario{
-		Name: "c05.from-zero", Groups: []h.GroupSpec{g}, Slots: 2, Quantum: Q,
+		Name: "c05.from-zero", Groups: []h.GroupSpec{g}, Slots: gens + 1, Quantum: Q,
 		Init: func(hh *h.Hist) {
 			a := InitASGs(hh)[0]
-			if !p.NoCache {
-				for i := 0; i < 2; i++ {
-					n := hh.W.AddNode(a, sim.NodeOpt{Age: time.Duration(10+i) * Q})
-					// 2.5 % utilisation: between the upper taint threshold (2) and the scale-up threshold (>= 3), so the first scan does nothing
-					hh.W.AddPod(sim.PodOpt{Node: n.Name, CPUMilli: p.C * 25 / 1000, MemBytes: p.M * 25 / 1000, Selector: sel(g)})
-				}
+			if p.NoCache {
+				return
+			}
+			if p.PrevC > 0 {
+				addGen(hh, a, p.PrevC, p.PrevM)
+			} else {
+				addGen(hh, a, p.C, p.M)
 			}
 		},
 		Script: func(hh *h.Hist, slot int) {
 			if slot == 0 {
 				hh.PermNodes = rotate
 			}
-			if slot != 1 {
+			if gens == 2 && slot == 1 {
+				// the first generation of nodes is replaced by nodes of the final size
+				wipe(hh)
+				addGen(hh, hh.W.FindASG(g.ASG.Name), p.C, p.M)
+			}
+			if slot != gens {
 				return
 			}
 			// every node goes away; a burst of pods arrives
-			a := hh.W.FindASG(g.ASG.Name)
-			for _, in := range a.Instances {
-				hh.W.EC2[in.ID].State = "terminated"
-			}
-			a.Instances, a.Desired = nil, 0
-			hh.W.Nodes, hh.W.Pods = nil, nil
+			wipe(hh)
 			hh.W.AddPod(sim.PodOpt{CPUMilli: p.ReqCPU, MemBytes: p.ReqMem, Selector: sel(g)})
+		},
+	}
+}
+
+// c05Mixed: one scan of a group with U untainted equal nodes plus tainted, cordoned (odd-sized) and
+// force-tainted nodes; requests chosen so that the minimal sufficient count is exactly U+Need.
+func c05Mixed(p c05Case) *h.Scenario {
+	g := StdGroup("g1")
+	g.Opts.MinNodes, g.Opts.MaxNodes = 0, 30
+	g.ASG.Max = 30
+	g.Opts.ScaleUpThresholdPercent = p.T
+	g.Opts.TaintLowerCapacityThresholdPercent, g.Opts.TaintUpperCapacityThresholdPercent = 1, 2
+	return &h.Scenario{
+		Name: "c05.mixed", Groups: []h.GroupSpec{g}, Slots: 1, Quantum: Q,
+		Init: func(hh *h.Hist) {
+			a := InitASGs(hh)[0]
+			k := 0
+			add := func(n int, o sim.NodeOpt) {
+				for i := 0; i < n; i++ {
+					k++
+					o.Age = time.Duration(10+k) * Q
+					hh.W.AddNode(a, o)
+				}
+			}
+			add(p.Cn, sim.NodeOpt{Cordoned: true, CPUMilli: 4000, MemBytes: 16 << 30})
+			add(p.U, sim.NodeOpt{})
+			add(p.Tn, sim.NodeOpt{TaintAge: dp(0)})
+			add(p.Fn, sim.NodeOpt{ForceTaint: true})
+			hh.W.AddPod(podOn(g, "", int64(p.T)*10*int64(p.U+p.Need)))
 		},
 	}
 }
@@ -166,7 +220,7 @@ type FromZeroAmount struct{ P c05Case }
 
 func (FromZeroAmount) Key() string { return "" }
 func (m FromZeroAmount) AfterScan(ctx *h.ScanCtx) []h.Violation {
-	if ctx.Scan != 2 {
+	if ctx.H.Slot != ctx.H.S.Slots-1 {
 		return nil
 	}
 	g := ctx.Groups[0]
@@ -253,6 +307,49 @@ func c05Grid(t *testing.T, tier string, shard, shards int, c *h.Collector) {
 			}
 		}
 	}
+	// end to end: single scans with tainted / cordoned / force-tainted nodes present
+	mixed := 0
+	for _, th := range []int{33, 70, 100} {
+		for u := 1; u <= 4; u++ {
+			for tn := 0; tn <= 3; tn++ {
+				for cn := 0; cn <= 2; cn++ {
+					for fn := 0; fn <= 1; fn++ {
+						for need := 1; need <= 4; need++ {
+							mixed++
+							if mixed%shards != shard {
+								continue
+							}
+							p := c05Case{T: th, U: u, Tn: tn, Cn: cn, Fn: fn, Need: need, EndToEnd: true, C: 1000, M: 4 << 30}
+							s := c05Mixed(p)
+							s.Monitors = func() []h.Monitor { return []h.Monitor{NewDecisions()} }
+							hh := gridCase(t, c, s, p)
+							for _, k := range seenKeys(hh) {
+								c.Nontrivial(fmt.Sprintf("mixed/%d/%s", th, k))
+							}
+						}
+					}
+				}
+			}
+		}
+	}
+	// end to end: from zero after the node size changed (the last observed size counts)
+	gen := 0
+	for _, sz := range [][4]int64{{1000, 4 << 30, 4000, 16 << 30}, {4000, 16 << 30, 1000, 4 << 30}} {
+		for _, th := range []int{33, 70} {
+			for target := 1; target <= 6; target++ {
+				gen++
+				if gen%shards != shard {
+					continue
+				}
+				rc := int64(th) * int64(target) * sz[2] / 100
+				p := c05Case{N: 0, PrevC: sz[0], PrevM: sz[1], C: sz[2], M: sz[3], T: th, ReqCPU: rc, ReqMem: 1, EndToEnd: true}
+				s := c05FromZero(p, 0)
+				s.Monitors = func() []h.Monitor { return []h.Monitor{FromZeroAmount{p}} }
+				gridCase(t, c, s, p)
+				c.Nontrivial(fmt.Sprintf("e2e-gen/%v/%d/%d", sz, th, rc))
+			}
+		}
+	}
 	// end to end: from zero
 	e2e := 0
 	for _, cc := range []int64{1000, 3900} {
@@ -292,6 +389,10 @@ func c05Replay(t *testing.T, raw []byte) []string {
 	if p.EndToEnd {
 		s := c05FromZero(p, 0)
 		s.Monitors = func() []h.Monitor { return []h.Monitor{FromZeroAmount{p}} }
+		if p.U > 0 {
+			s = c05Mixed(p)
+			s.Monitors = func() []h.Monitor { return []h.Monitor{NewDecisions()} }
+		}
 		hh := RunCase(t, s)
 		out := append([]string{fmt.Sprintf("case %+v", p)}, hh.Trace...)
 		for _, v := range hh.Viol {
@@ -308,7 +409,7 @@ func init() {
 		ID:    "C05",
 		Level: "exploration",
 		Rule: "bounded-exhaustive grid through the real percent and delta arithmetic: n 0..6 (12 thorough) equal nodes x node CPU sizes x memory sizes x thresholds 1..100,120,150,200 x every target n..n+10 with requests exactly on 100*R = T*N*size and +/-1 unit, CPU-bound, memory-bound and both, plus an interior sweep; " +
-			"end to end: two-scan scale-from-zero histories (cached size from the first listed node, two list orders; and never having seen a node) on the real controller; the amount oracle also rides on every history scan of C03/C04/C06/C07/C09. " +
+			"end to end on the real controller: single scans of groups holding tainted, cordoned (odd-sized) and force-tainted nodes next to 1..4 untainted ones; two- and three-scan scale-from-zero histories (cached size from the first listed node, two list orders; the node size changing before the group drains; never having seen a node). " +
 			"non-trivial = cases where exact and float utilisation exceed the threshold; distinct = (n, sizes, threshold, requests)",
 		Grid:        c05Grid,
 		ReplayCase:  c05Replay,
